@@ -609,6 +609,8 @@ func (tr *FnCtx) havocLoop(li *loopInfo, st *State) {
 				tr.note("defer inside a loop is not supported")
 				tr.unsupported = append(tr.unsupported, "defer in loop")
 				all = true
+			case *ssa.Go:
+				// the spawned function runs concurrently; the spawner's sequential skeleton sees no effect
 			case ssa.CallInstruction:
 				cs, a := tr.callMods(x.Common())
 				if a {
@@ -1497,8 +1499,12 @@ func (tr *FnCtx) appendOp(st *State, c *ssa.CallCommon, resT types.Type) *Val {
 	nb := tr.newObj(st)
 	ncap := tr.freshConst("newcap", "Int")
 	tr.assume("(>= " + ncap + " (+ " + ln + " " + n + "))")
-	rbase := tr.define(tr.fresh("abase"), "Int", ite(inplace, base, nb))
-	roff := tr.define(tr.fresh("aoff"), "Int", ite(inplace, off, "0"))
+	// result header as constants constrained per case (no ite terms inside element addresses)
+	rbase := tr.freshConst("abase", "Int")
+	roff := tr.freshConst("aoff", "Int")
+	rcap := tr.freshConst("acap", "Int")
+	tr.assume(implies(inplace, and(eq(rbase, base), eq(roff, off), eq(rcap, cp))))
+	tr.assume(implies(not(inplace), and(eq(rbase, nb), eq(roff, "0"), eq(rcap, ncap))))
 	var evals []*Val
 	for _, e := range elems {
 		v := tr.val(e)
@@ -1508,19 +1514,19 @@ func (tr *FnCtx) appendOp(st *State, c *ssa.CallCommon, resT types.Type) *Val {
 	cs := tr.W.cellComps(et)
 	for ci, cc := range cs {
 		old := tr.cur(st, cc)
-		// reallocation: copy the old elements into the new backing
-		moved := tr.freshConst(cc.Name+"@ap", cc.Sort)
-		tr.assumeRaw(fmt.Sprintf("(forall ((a Int)) (! (= (select %s a) (ite (and (< a 0) (= (elemB a) %s) (<= 0 (elemI a)) (< (elemI a) %s)) (select %s (elem %s (+ %s (elemI a)))) (select %s a))) :pattern ((select %s a))))",
-			moved, nb, ln, old, base, off, old, moved))
-		t := ite(inplace, old, moved)
-		for j, ev := range evals {
-			if ci < len(ev.A) {
-				t = store(t, tr.at(rbase, roff, add(ln, intLit(int64(j)))), ev.A[ci])
+		// one pointwise definition of the new memory covering both outcomes (in place / reallocated)
+		nw := tr.freshConst(cc.Name+"@ap", cc.Sort)
+		body := "(ite (and (not " + inplace + ") (< a 0) (= (elemB a) " + nb + ") (<= 0 (elemI a)) (< (elemI a) " + ln + ")) (select " + old + " (at " + base + " " + off + " (elemI a))) (select " + old + " a))"
+		for j := len(evals) - 1; j >= 0; j-- {
+			if ci < len(evals[j].A) {
+				body = "(ite (= a " + tr.at(rbase, roff, add(ln, intLit(int64(j)))) + ") " + evals[j].A[ci] + " " + body + ")"
 			}
 		}
-		tr.set(st, cc, t)
+		tr.assumeRaw(fmt.Sprintf("(forall ((a Int)) (! (= (select %s a) %s) :pattern ((select %s a))))", nw, body, nw))
+		st.Comps[cc.Name] = nw
+		tr.refAxiomLater(st, cc, nw)
 	}
-	return &Val{T: resT, A: []string{rbase, roff, "(+ " + ln + " " + n + ")", ite(inplace, cp, ncap)}}
+	return &Val{T: resT, A: []string{rbase, roff, "(+ " + ln + " " + n + ")", rcap}}
 }
 
 func (tr *FnCtx) copyOp(st *State, c *ssa.CallCommon, resT types.Type) *Val {
@@ -1535,7 +1541,7 @@ func (tr *FnCtx) copyOp(st *State, c *ssa.CallCommon, resT types.Type) *Val {
 	for _, cc := range tr.W.cellComps(sl.Elem()) {
 		old := tr.cur(st, cc)
 		nw := tr.havocComp(st, cc)
-		tr.assumeRaw(fmt.Sprintf("(forall ((a Int)) (! (= (select %s a) (ite (and (< a 0) (= (elemB a) %s) (<= %s (elemI a)) (< (elemI a) (+ %s %s))) (select %s (elem %s (+ %s (- (elemI a) %s)))) (select %s a))) :pattern ((select %s a))))",
+		tr.assumeRaw(fmt.Sprintf("(forall ((a Int)) (! (= (select %s a) (ite (and (< a 0) (= (elemB a) %s) (<= %s (elemI a)) (< (elemI a) (+ %s %s))) (select %s (at %s %s (- (elemI a) %s))) (select %s a))) :pattern ((select %s a))))",
 			nw, d.A[0], d.A[1], d.A[1], n, old, s.A[0], s.A[1], d.A[1], old, nw))
 	}
 	return &Val{T: resT, A: []string{n}}
@@ -1552,16 +1558,19 @@ func (tr *FnCtx) appendSlice(st *State, s, t *Val, et types.Type, resT types.Typ
 	for _, cc := range tr.W.cellComps(et) {
 		old := tr.cur(st, cc)
 		m1 := tr.freshConst(cc.Name+"@ai", cc.Sort)
-		tr.assumeRaw(fmt.Sprintf("(forall ((a Int)) (! (= (select %s a) (ite (and (< a 0) (= (elemB a) %s) (<= (+ %s %s) (elemI a)) (< (elemI a) (+ %s %s %s))) (select %s (elem %s (+ %s (- (elemI a) (+ %s %s))))) (select %s a))) :pattern ((select %s a))))",
+		tr.assumeRaw(fmt.Sprintf("(forall ((a Int)) (! (= (select %s a) (ite (and (< a 0) (= (elemB a) %s) (<= (+ %s %s) (elemI a)) (< (elemI a) (+ %s %s %s))) (select %s (at %s %s (- (elemI a) (+ %s %s)))) (select %s a))) :pattern ((select %s a))))",
 			m1, base, off, ln, off, ln, n, old, tb, toff, off, ln, old, m1))
 		m2 := tr.freshConst(cc.Name+"@ar", cc.Sort)
-		tr.assumeRaw(fmt.Sprintf("(forall ((a Int)) (! (= (select %s a) (ite (and (< a 0) (= (elemB a) %s) (<= 0 (elemI a)) (< (elemI a) %s)) (select %s (elem %s (+ %s (elemI a)))) (ite (and (< a 0) (= (elemB a) %s) (<= %s (elemI a)) (< (elemI a) (+ %s %s))) (select %s (elem %s (+ %s (- (elemI a) %s)))) (select %s a)))) :pattern ((select %s a))))",
+		tr.assumeRaw(fmt.Sprintf("(forall ((a Int)) (! (= (select %s a) (ite (and (< a 0) (= (elemB a) %s) (<= 0 (elemI a)) (< (elemI a) %s)) (select %s (at %s %s (elemI a))) (ite (and (< a 0) (= (elemB a) %s) (<= %s (elemI a)) (< (elemI a) (+ %s %s))) (select %s (at %s %s (- (elemI a) %s))) (select %s a)))) :pattern ((select %s a))))",
 			m2, nb, ln, old, base, off, nb, ln, ln, n, old, tb, toff, ln, old, m2))
 		tr.set(st, cc, ite(inplace, m1, m2))
 	}
-	rbase := tr.define(tr.fresh("abase"), "Int", ite(inplace, base, nb))
-	roff := tr.define(tr.fresh("aoff"), "Int", ite(inplace, off, "0"))
-	return &Val{T: resT, A: []string{rbase, roff, "(+ " + ln + " " + n + ")", ite(inplace, cp, ncap)}}
+	rbase := tr.freshConst("abase", "Int")
+	roff := tr.freshConst("aoff", "Int")
+	rcap := tr.freshConst("acap", "Int")
+	tr.assume(implies(inplace, and(eq(rbase, base), eq(roff, off), eq(rcap, cp))))
+	tr.assume(implies(not(inplace), and(eq(rbase, nb), eq(roff, "0"), eq(rcap, ncap))))
+	return &Val{T: resT, A: []string{rbase, roff, "(+ " + ln + " " + n + ")", rcap}}
 }
 
 func (tr *FnCtx) sortSortModsCommon(c *ssa.CallCommon) ([]Comp, bool) {
